@@ -73,9 +73,6 @@ inline std::pair<Variable *, std::string> resolve_nested_member_for_assignment(
     if (member_access_node->left->node_type == ASTNodeType::AST_ARRAY_REF) {
         const ASTNode *array_ref = member_access_node->left.get();
 
-        // 配列のインデックスを評価
-        int64_t index = evaluate_index(array_ref->array_index.get());
-
         // 配列の左側を解決（再帰的）
         Variable *array_parent = nullptr;
         std::string array_member_name;
@@ -116,6 +113,11 @@ inline std::pair<Variable *, std::string> resolve_nested_member_for_assignment(
         } else {
             throw std::runtime_error("Unsupported array reference type");
         }
+
+        // 配列のインデックスを評価
+        // (after the left part has been resolved, so that the index
+        // expressions of a.b[i].c[j].d are evaluated in source order: i, j)
+        int64_t index = evaluate_index(array_ref->array_index.get());
 
         if (!array_parent ||
             (!array_parent->is_array && !array_parent->is_pointer)) {
